@@ -161,10 +161,12 @@ class ExplorerScriptMacro:
                 )
             else:
                 out_ops.append(self._build_op(op_idx_counter, blueprint_op, smb, parameters))
-        for pos_mark in self.source_map.get_position_marks__direct():
+        # The lists are copied, because macros of one file share their source map with the builder
+        # that is used while the other macros of that file are compiled.
+        for pos_mark in list(self.source_map.get_position_marks__direct()):
             smb.add_macro_position_mark(self.included__relative_path, self.name, pos_mark)
         # Also add the sub-macro position marks to the map
-        for m in self.source_map.get_position_marks__macros():
+        for m in list(self.source_map.get_position_marks__macros()):
             smb.add_macro_position_mark(*m)
 
         out_ops.append(end_label)
